@@ -44,10 +44,6 @@ Proof.
   - rewrite (Hbit j Hj), Hlj. apply andb_false_r.
 Qed.
 
-(* route_eq is not transitive as it stands (a key default-routed by B may be caught by C); what
-   composes is a first step that keeps every key matched (ordered covering never drops a key) *)
-Definition route_eq_matched (A B : table) : Prop :=
-  forall k e, key32 k -> lookup A k = Some e -> exists e', lookup B k = Some e' /\ routes_like e e'.
 
 Lemma route_eq_matched_route_eq : forall A B, route_eq_matched A B -> route_eq A B.
 Proof.
@@ -218,22 +214,7 @@ Qed.
 (* ------------------------------------------------------------------------------------------------ *)
 (** * The method chain: minimise_table, minimise_tables *)
 
-(* What minimise_table needs of a method f on table t: run to the end (no target) it returns a table
-   [full] that routes like t and is not longer; with a target it either returns a table that routes
-   like t, is not longer and meets the target, or fails reporting exactly len full > target. *)
-Definition method_ok (f : table -> option Z -> result table) (t : table) : Prop :=
-  exists full,
-    f t None = Ok full /\ route_eq t full /\ len full <= len t /\
-    forall tl,
-      match f t (Some tl) with
-      | Ok r => route_eq t r /\ len r <= len t /\ len r <= tl
-      | Failed n => n = len full /\ tl < n
-      | OtherError | OutOfFuel => False
-      end.
 
-(* the size a method reaches when run to the end *)
-Definition full_size (f : table -> option Z -> result table) (t : table) : Z :=
-  match f t None with Ok full => len full | _ => len t end.
 
 Lemma remove_default_method_ok : forall t, method_ok remove_default t.
 Proof.
@@ -246,12 +227,6 @@ Proof.
   - apply Z.ltb_ge in Hlt. split; [exact Hre | split; assumption].
 Qed.
 
-(* the smallest size reached by the methods, starting from [best] *)
-Fixpoint best_size (ms : list (table -> option Z -> result table)) (t : table) (best : Z) : Z :=
-  match ms with
-  | [] => best
-  | f :: ms' => best_size ms' t (Z.min best (full_size f t))
-  end.
 
 Lemma min_if : forall a best, (if a <? best then a else best) = Z.min best a.
 Proof. intros a best. destruct (a <? best) eqn:Hc; [apply Z.ltb_lt in Hc | apply Z.ltb_ge in Hc]; lia. Qed.
@@ -405,9 +380,6 @@ Proof.
       rewrite <- app_assoc. reflexivity.
 Qed.
 
-(* the table a result dictionary holds for a chip: absent means empty *)
-Definition table_of (out : list (chip * table)) (c : chip) : table :=
-  match cassoc c out with Some r => r | None => [] end.
 
 Lemma chip_eqb_eq : forall a b, chip_eqb a b = true <-> a = b.
 Proof.
